@@ -21,7 +21,7 @@ CHECKS = {
             "duplicate type names are C09's subject", "explicit-state enumeration against a resolution specification"),
     "C09": ("all schema trees of per-rule sub-scopes built through the constructors x 3 check-set configurations x every permutation of the declaration lists (incl. two CAN bindings x ids x buses none/b1/b2/default); oracle: three-valued reference predicate + permutation invariance",
             "statement-silent cases (non-CAN binding > 64 bits under the C check set) accept either verdict", "small-scope exhaustive enumeration against a reference predicate"),
-    "C10": ("for each generator every check evaluation of the verification run is made to fail in turn (fault enumeration through Verifier.register) x pre-existing directory states (incl. a missing nested directory); plug-ins returning one path twice; an uncategorized check; a stub plug-in writing into sub-directories; CLI exit status; rule-violating schemas; accepted runs vs the plug-in's returned files; generate() histories by fork-snapshot; CLI",
+    "C10": ("for each generator every check evaluation of the verification run is made to fail in turn (fault enumeration through Verifier.register) x pre-existing directory states (incl. a missing nested directory, stale files of exactly the new size); plug-ins returning one path twice; an uncategorized check; a stub plug-in writing into sub-directories; CLI exit status; rule-violating schemas; accepted runs vs the plug-in's returned files; generate() histories by fork-snapshot; CLI",
             "an exception counts as an error report; deletions by a plug-in's own generate() on accepted schemas are not judged", "exhaustive fault-point enumeration + history exploration with directory snapshots"),
     "C11": ("every prefix of every corpus text, every single-token mutation at every token position, every token string up to length 4/5 over two 12-token alphabets, every literal slot x value form, nesting depths 100..1000 (3000) in every recursive production, every import graph over 2 (3) files, layered graphs with 2^n paths to a valid or broken leaf, main files that are not UTF-8, texts given as a string under seven states of the working directory (removed, symlink loop / dangling link / directory / file called main.fcp), and the same inside an imported module; every parse history through one Logger re-rendering earlier errors; oracle: no exception, Ok or renderable Err, cited lines exist",
             "termination decided within a 10 s alarm per input", "exhaustive enumeration of input families on the real parser"),
@@ -35,9 +35,9 @@ CHECKS = {
             "cross-file declaration order is not judged, only per-category multisets", "exhaustive enumeration of module splits, differential oracle"),
 }
 CHECKS.update({
-    "C03": ("struct shapes (type trees to depth 2/3 x offsets, widths 1..64 in thorough, enums up to 2^63) and schema-level programs (services with every input/output pairing, several protocols, renamed and double bindings, a naming family for aliases / rpc wrapper names / locals / accessor-like type names, generation repeated on the same object) given to the real fcp_cpp generator, compiled with g++ -std=c++17 with a generic JSON harness; EncodeJson == reference bytes, DecodeJson(reference bytes) == value",
+    "C03": ("struct shapes (type trees to depth 2/3 x offsets, widths 1..64 in thorough, enums up to 2^63) and schema-level programs (services with every input/output pairing, several protocols, renamed and double bindings, a second default-protocol binding, a naming family for aliases / rpc wrapper names / locals / accessor-like type names, generation repeated on the same object) given to the real fcp_cpp generator, compiled with g++ -std=c++17 with a generic JSON harness; EncodeJson == reference bytes, DecodeJson(reference bytes) == value",
             "g++ 12 decides 'compiles'; finite floats over JSON; reference codec pinned by project vectors", "explicit-state enumeration of generator inputs, compiled and executed against a reference model"),
-    "C05": ("CAN schemas (1..3-field messages <= 64 bits over all fixed-size kinds, big-endian subsets, mux subsets and counts, selectors inside nested structs (one and two levels) and names beyond 32 characters, option values at the edge (mux_count alone, endianess spellings, frame ids beyond 11 bits), units at every level, 1..3 bindings over 3 buses) through the real fcp_dbc generator; own DBC reader vs reference layout + geometry; cantools decodes every reference-packed boundary frame",
+    "C05": ("CAN schemas (1..3-field (thorough 4) messages <= 64 bits over all fixed-size kinds, options declared for array fields incl. arrays of arrays, big-endian subsets, mux subsets and counts, selectors inside nested structs (one and two levels) and names beyond 32 characters, option values at the edge (mux_count alone, endianess spellings, frame ids beyond 11 bits), units at every level, 1..3 bindings over 3 buses) through the real fcp_dbc generator; own DBC reader vs reference layout + geometry; cantools decodes every reference-packed boundary frame",
             "cantools is the independent decoder; big-endian only on byte-aligned 8/16/32/64-bit fields", "explicit-state enumeration against a reference layout + independent decoder"),
     "C06": ("every flat CAN message of 1..3 signals (4 in thorough) over {u/i 1,5,8,12,16,24,32,33,64, f32, f64, enums} <= 64 bits + directed 5..8-signal messages through the real fcp_can_c generator, gcc, generated main(): frame id/dlc/data == reference packing, decode(encode(v)) == v",
             "gcc 12; NaN/infinities excluded (no portable literal), -0.0 compared bit for bit; a naming family (device/message/binding/enum/signal names of every casing, leading underscores, frame ids at and beyond 11 bits)", "explicit-state enumeration of generator inputs, compiled and executed against a reference model"),
